@@ -8,7 +8,7 @@ from .. import runcheck, monitors, problems
 
 
 def run(ctx):
-    bdir, A = runcheck.setup(ctx, ["Wrap:memo_returns|wrappers_pass", "C05", "C05Crs"])
+    bdir, A = runcheck.setup(ctx, ["Wrap:memo_returns|wrappers_pass", "C05", "C05Crs"] + runcheck.drv("best_|returned_pair"))
     if bdir:
         rng = __import__("random").Random(ctx.seed * 31 + 5)
         ps = []
@@ -54,6 +54,33 @@ def run(ctx):
                     p.pop(k, None)
                 p["obj"] = rng.choice([0, 1, 1, 3])
                 p["xtol_rel"] = rng.choice([1e-3, 1e-5, 1e-7])
+                p["quietx"] = 0
+                ps.append(p)
+        # the drivers with a Lean control-flow model (Props/Drv*.lean): small populations / dimensions so that every phase (initial
+        # population, trials, generations, shrinks) and every stopping test (stopval, ftol, xtol, maxeval) decides some runs
+        from ..common import hexd
+        for nm in ("NLOPT_GN_CRS2_LM", "NLOPT_GN_ESCH", "NLOPT_GN_ISRES", "NLOPT_LN_NELDERMEAD", "NLOPT_LN_SBPLX"):
+            for rep in range(60 if ctx.thorough else 16):
+                n = rng.choice([1, 2, 2, 3])
+                p = problems.gen_problem(rng, A, alg_name=nm, n=n, with_constraints=False, box="finite", maxeval=rng.choice([30, 120, 400]))
+                for k in ("stopval", "ftol_rel", "ftol_abs", "xtol_rel", "xtol_abs", "maxtime", "clockq", "clock0", "xw", "pop"):
+                    p.pop(k, None)
+                p["obj"] = rng.choice([0, 0, 1, 3])
+                if nm.startswith("NLOPT_GN") and rng.random() < 0.7:
+                    p["pop"] = rng.choice([n + 1, n + 2, 4, 6, 9])
+                kind = rep % 4
+                if kind == 0:
+                    p["ftol_rel"] = rng.choice([1e-1, 1e-2, 1e-4])
+                elif kind == 1:
+                    p["xtol_rel"] = rng.choice([1e-1, 1e-2, 1e-4])
+                    if rng.random() < 0.4:
+                        p["xw"] = [rng.choice([1.0, 0.5, 2.0]) for _ in range(n)]
+                elif kind == 2:
+                    p["xtol_abs"] = [rng.choice([1e-1, 1e-2, 1e-3]) for _ in range(n)]
+                    if rng.random() < 0.5:
+                        p["ftol_abs"] = rng.choice([1e-1, 1e-3])
+                else:
+                    p["stopval"] = rng.choice([0.05, 0.5, 2.0]) * (-1 if p.get("max") else 1)
                 p["quietx"] = 0
                 ps.append(p)
         batch = runcheck.run_batch(ctx, bdir, A, ps, [monitors.mon_best], "incumbent-keeping algorithms")
